@@ -232,3 +232,28 @@ def rel(path) -> str:
         return str(Path(path).resolve().relative_to(REPO))
     except Exception:
         return str(path)
+
+
+class Demoter:
+    """Proxy for a Report that turns the findings of the named rules into information.  Used where a clause is decided by
+    interpretation (which ran and completed) and an older rule that matches the *shape* of the code is kept as a pointer to the
+    construct: the shape rule may name a behaviour-preserving rewrite, so it cannot be the verdict; if the interpretation could
+    not be carried out, the shape rules are not demoted and decide as before."""
+
+    def __init__(self, rep, rules, decided_by: str):
+        object.__setattr__(self, "_rep", rep)
+        object.__setattr__(self, "_rules", set(rules))
+        object.__setattr__(self, "_by", decided_by)
+
+    def __getattr__(self, name):
+        return getattr(self._rep, name)
+
+    def __setattr__(self, name, value):
+        setattr(self._rep, name, value)
+
+    def bad(self, rule, construct, detail, message, file, line, **kw):
+        if rule in self._rules:
+            self._rep.info(f"shape-level candidate, not a verdict (the clause is decided by {self._by}) {rule}|{construct}|{detail}: {message[:220]}")
+            self._rep.ok(rule, construct, f"(candidate only) {detail}", f"{file}:{line}", nontrivial=False)
+            return
+        return self._rep.bad(rule, construct, detail, message, file, line, **kw)
